@@ -117,6 +117,11 @@ fn linearizable(ops: &[HOp], calls: &[Call], init: u32, weak: bool) -> bool {
             if let Some(ns) = next {
                 stack.push((done | (1 << i), ns));
             }
+            if ops[i].optional {
+                // an operation that unwound may also have had no effect at all; it must then not
+                // stand in the way of the operations that follow it in real time
+                stack.push((done | (1 << i), st));
+            }
         }
     }
     false
